@@ -232,4 +232,4 @@ def run_unit(vc_path, repo='/repo', workdir=None, canaries=True, rlimit=None, ke
 if __name__ == '__main__':
     r = run_unit(sys.argv[1], repo=sys.argv[2] if len(sys.argv) > 2 else '/repo', workdir='/var/tmp/verif-dbg')
     r.pop('unit_text', None)
-    print(json.dumps(r, indent=1, default=str)[:6000])
+    print(json.dumps(r, indent=1, default=str))
